@@ -1,6 +1,7 @@
 package main
 
 import (
+	"context"
 	"encoding/json"
 	"flag"
 	"fmt"
@@ -57,6 +58,16 @@ func cmdSSA(args []string) {
 	}
 	for _, p := range e.pkgs {
 		for _, n := range args[2:] {
+			if strings.HasPrefix(n, "?") {
+				fn := e.findFunc(p.PkgPath, n[1:])
+				fmt.Printf("%s: inferNoMods=%v\n", n[1:], e.inferNoMods(fn))
+				for g, d := range directMemo {
+					if d.bad {
+						fmt.Printf("   direct-bad: %s\n", g.String())
+					}
+				}
+				continue
+			}
 			if fn := e.findFunc(p.PkgPath, n); fn != nil {
 				fn.WriteTo(os.Stdout)
 			} else {
@@ -261,7 +272,27 @@ func runCheck(o *checkOpts) int {
 				os.MkdirAll(o.dump, 0o755)
 				os.WriteFile(filepath.Join(o.dump, fmt.Sprintf("%03d_%s.smt2", i, sanitizeFile(ob.Name))), []byte(q), 0o644)
 			}
-			r := solve(q, tmp, fmt.Sprintf("q%d", i), o.timeout, o.tier == "thorough" && !ob.Cover)
+			thorough := o.tier == "thorough" && !ob.Cover
+			var r solveResult
+			decided := func() bool { return r.status == "sat" || r.status == "unsat" || r.status == "disagree" }
+			if !thorough {
+				st, out, ms := runOne(context.Background(), solvers[0], writeTmp(tmp, fmt.Sprintf("q%d_first.smt2", i), q), 3)
+				r = solveResult{status: st, solver: solvers[0].name, ms: ms, out: out}
+			}
+			if !decided() && !ob.Cover && !thorough {
+				// undecided: try the relaxation without quantified axioms. unsat there is unsat here (fewer
+				// assumptions); sat there is only a candidate model (solvers rarely return models under quantifiers).
+				q2 := c.buildQueryOpt(ob, true, true)
+				st2, out2, ms2 := runOne(context.Background(), solvers[0], writeTmp(tmp, fmt.Sprintf("q%d_relaxed.smt2", i), q2), 5)
+				if st2 == "unsat" {
+					r = solveResult{status: "unsat", solver: solvers[0].name + " (quantifier-free relaxation)", ms: r.ms + ms2, out: out2}
+				} else if st2 == "sat" {
+					r = solveResult{status: "sat", solver: solvers[0].name + " (candidate model: quantified axioms dropped)", ms: r.ms + ms2, out: out2}
+				}
+			}
+			if !decided() {
+				r = solve(q, tmp, fmt.Sprintf("q%d", i), o.timeout, thorough)
+			}
 			ob.Status, ob.Solver, ob.Ms, ob.Output = r.status, r.solver, r.ms, r.out
 			if r.status == "sat" {
 				ob.Model = parseGetValue(r.out, ob.Inputs)
